@@ -46,6 +46,11 @@ pub enum BOp {
     Compact,
     Flush,
     Reload,
+    /// Sequential mode only: flush, then rewrite the stored objects into the
+    /// legacy (pre-manifest) layout - metadata without a bucket manifest, every
+    /// bucket object at generation 0 - and load the index from it. The next
+    /// flush is the upgrade to the manifest format and is swept like any other.
+    Legacify,
 }
 
 #[derive(Clone, Debug, Serialize, Deserialize, PartialEq)]
@@ -224,7 +229,7 @@ pub fn model_apply(m: &mut MM, op: &BOp, unique: bool) -> Result<u64, ()> {
             }
             Ok(n)
         }
-        BOp::Compact | BOp::Flush | BOp::Reload => Ok(0),
+        BOp::Compact | BOp::Flush | BOp::Reload | BOp::Legacify => Ok(0),
     }
 }
 
@@ -242,7 +247,7 @@ pub fn real_apply(idx: &BTreeIndex<u64, String>, op: &BOp, now: u64) -> Result<u
             idx.compact_buckets();
             Ok(0)
         }
-        BOp::Flush | BOp::Reload => Ok(0),
+        BOp::Flush | BOp::Reload | BOp::Legacify => Ok(0),
     }
 }
 
@@ -350,7 +355,7 @@ fn gen_op(rng: &mut Rng, allow_persist: bool, arrays: bool) -> BOp {
     let id = |rng: &mut Rng| rng.range(1, 10);
     let k = |rng: &mut Rng| rng.below(8) as u8;
     let ks = |rng: &mut Rng| (0..rng.range(1, 4)).map(|_| rng.below(8) as u8).collect::<Vec<u8>>();
-    let w: [u32; 8] = [40, 20, if arrays { 10 } else { 0 }, if arrays { 6 } else { 0 }, if arrays { 8 } else { 0 }, 6, if allow_persist { 10 } else { 0 }, if allow_persist { 4 } else { 0 }];
+    let w: [u32; 9] = [40, 20, if arrays { 10 } else { 0 }, if arrays { 6 } else { 0 }, if arrays { 8 } else { 0 }, 6, if allow_persist { 10 } else { 0 }, if allow_persist { 4 } else { 0 }, if allow_persist && arrays { 3 } else { 0 }];
     match rng.weighted(&w) {
         0 => BOp::Insert { id: id(rng), key: k(rng) },
         1 => BOp::Remove { id: id(rng), key: k(rng) },
@@ -359,7 +364,8 @@ fn gen_op(rng: &mut Rng, allow_persist: bool, arrays: bool) -> BOp {
         4 => BOp::BatchUpdate { id: id(rng), old: ks(rng), new: ks(rng) },
         5 => BOp::Compact,
         6 => BOp::Flush,
-        _ => BOp::Reload,
+        7 => BOp::Reload,
+        _ => BOp::Legacify,
     }
 }
 
@@ -412,7 +418,7 @@ pub fn generate(case_seed: u64, idx: u64, tier: Tier) -> BCase {
                         }
                         _ => {}
                     }
-                    let mutation = !matches!(op, BOp::Flush | BOp::Reload);
+                    let mutation = !matches!(op, BOp::Flush | BOp::Reload | BOp::Legacify);
                     ops.push(op);
                     if mutation && rng.chance(3, 4) {
                         ops.push(BOp::Flush);
@@ -573,6 +579,39 @@ fn run_seq(seed: u64, unique: bool, bucket: usize, ops: &[BOp], queries: &[Q], r
             BOp::Flush => {
                 if flush_with_prefix_sweep(&idx, &mut disk, &committed, &m, &ctx, rep, &mut sigs)? {
                     committed = m.clone();
+                }
+            }
+            BOp::Legacify => {
+                if flush_with_prefix_sweep(&idx, &mut disk, &committed, &m, &ctx, rep, &mut sigs)? {
+                    committed = m.clone();
+                }
+                if let Some(cur) = load_from(&disk).map_err(|e| violation!("c10.load-error", "{ctx}: load before the legacy rewrite failed: {e}"))? {
+                    // keep exactly the objects the manifest references, at generation 0
+                    #[derive(Serialize)]
+                    struct MetaRef<'a> {
+                        metadata: &'a anda_db_btree::BTreeMetadata,
+                    }
+                    let mut meta = cur.metadata();
+                    let manifest = std::mem::take(&mut meta.buckets);
+                    let mut legacy = Disk::new();
+                    for (bucket_id, generation) in &manifest {
+                        if let Some(data) = disk.get(&bucket_name(BucketObject { bucket_id: *bucket_id, generation: *generation })) {
+                            legacy.insert(bucket_name(BucketObject { bucket_id: *bucket_id, generation: 0 }), data.clone());
+                        }
+                    }
+                    let mut buf = Vec::new();
+                    cbor2::to_writer(&MetaRef { metadata: &meta }, &mut buf).map_err(|e| violation!("harness.legacy", "encoding legacy metadata failed: {e}"))?;
+                    legacy.insert("meta".into(), buf);
+                    disk = legacy;
+                    let l = load_from(&disk).map_err(|e| violation!("c10.load-error", "{ctx}: loading the legacy (manifest-less) layout failed: {e}"))?;
+                    let Some(l) = l else { return Err(violation!("c10.load-error", "{ctx}: the legacy layout did not load")) };
+                    let got = contents(&l);
+                    if got != committed {
+                        return Err(violation!("c10.legacy-load", "{ctx}: the legacy (manifest-less) layout loads as {got:?}, the committed contents are {committed:?}"));
+                    }
+                    idx = l;
+                    m = committed.clone();
+                    rep.probe("legacy_layout_loaded", 1);
                 }
             }
             BOp::Reload => {
